@@ -1,5 +1,5 @@
-"""C02 — type, range and allowed-value integrity (pure validation grid; API write paths are
-exercised by the history families of C01/C09 with the same monitor)."""
+"""C02 — type, range and allowed-value integrity: the validation grid (part Grid) and the write / actuation
+paths that call the decision functions (part Paths, history family, clauses C02-stored / C02-forwarded)."""
 from fractions import Fraction
 from .. import enc as E
 
@@ -22,7 +22,9 @@ RULE = ("grid: 24 data types x 17 value kinds x boundary pool (narrow-type limit
         "NaN, +-inf, +-0, empty arrays, arrays with one offending element) x {no,min,max,both} x "
         "{no allowed, allowed, allowed of a foreign kind}; validate() and validate_actuator_value() "
         "are both called on the real Entry; non-trivial = value of the type's own kind (so that range "
-        "and allowed checks decide), distinct = (type, min/max/allowed shape, verdict, value)")
+        "and allowed checks decide), distinct = (type, min/max/allowed shape, verdict, value); second part: seeded "
+        "store and actuation histories plus routing scenarios through the real update_entries / actuate / "
+        "batch_actuate, every stored and every forwarded value re-judged against the declarative domain")
 TRUSTED = [
     "Flocq 4 IEEE-754 formalisation",
     "extraction: ExtrOcamlBasic only; driver ocaml/model_run.ml",
@@ -31,8 +33,8 @@ TRUSTED = [
     "python declarative domain monitor vp/props/c02.py",
 ]
 ASSUMPTIONS = ["metadata min/max are of the data type's own value kind or a kind comparable with it",
-               "this family covers the decision function; the write paths that call it are covered by "
-               "the history families (C01, C09) whose monitors re-use in_domain"]
+               "the grid covers the decision functions; the write paths that call them are covered by the second "
+               "part (history family) whose monitor re-uses in_domain"]
 
 F, D = E.f32_bits, E.f64_bits
 # data type -> (natural scalar kind, array?, narrow range or None)
@@ -310,3 +312,60 @@ def neighbours(lines, rng):
         for vv in values_for(ty):
             out.append([line(0, ty, a, b, c, vv)])
     return out[:3000]
+
+
+class Grid:
+    """the decision functions on a synthetic Entry (family 2)"""
+    FAM = 2
+    SHRINK = False
+    generate = staticmethod(generate)
+    monitor = staticmethod(monitor)
+    nontrivial = staticmethod(nontrivial)
+    histogram = staticmethod(histogram)
+    pretty = staticmethod(pretty)
+    neighbours = staticmethod(neighbours)
+
+
+class Paths:
+    """the write and actuation paths that call them (history family): every value stored by an accepted write and
+    every value forwarded to a provider is re-judged against the declarative domain (clauses C02-stored,
+    C02-forwarded); store-centred histories, actuation histories and the routing scenarios of vp/props/c09.py
+    (batches with duplicates and ill-typed values in every position)"""
+    FAM = 1
+
+    @staticmethod
+    def generate(rng, tier):
+        from .. import hist as H
+        from . import c09
+        n = 80 if tier == "quick" else 2000
+        cases = [("s%d" % i, H.gen_history(rng, H.W_STORE)) for i in range(n)]
+        cases += [("t%d" % i, H.gen_history(rng, H.W_ACT)) for i in range(n)]
+        cases += [("route%d" % i, c09.routing_scenario(rng)) for i in range(n // 2)]
+        return cases
+
+    @staticmethod
+    def monitor(lines, out):
+        from .. import hist as H
+        return H.monitor(lines, out, {"C02"})
+
+    @staticmethod
+    def nontrivial(lines, out):
+        from . import c01
+        return c01.nontrivial(lines, out)
+
+    @staticmethod
+    def histogram(lines, out):
+        from .. import hist as H
+        return ["op:" + (H.OPN[l[0]] if 0 <= l[0] < len(H.OPN) else "?") for l in lines]
+
+    @staticmethod
+    def pretty(lines):
+        from .. import hist as H
+        return H.pretty(lines)
+
+    @staticmethod
+    def neighbours(lines, rng):
+        return []
+
+
+PARTS = [Grid, Paths]
